@@ -43,11 +43,15 @@ def pipelines():
     mut = dict(func="verif_probes.mutates_args", name="mut", arguments=dict(items=[1, 2, 3], scalar=0))
     fl = dict(func="verif_probes.fail", name="fl", arguments=dict(when_arg=5.0, arg=0.0))
     wr = dict(func="verif_probes.write", name="wr", arguments=dict(bucket="photon", value=4.0))
+    mem = dict(func="verif_probes_c06.memory", name="mem", arguments=dict(key="trap", inc=1.0))
     return {
         "a2p_st": ({G: [a2p, st]}, [K + "a2p.arguments.a", K + "a2p.arguments.b", K + "st.arguments.inc"], None, False),
         "mut_st": ({G: [mut, st]}, [K + "mut.arguments.scalar", K + "st.arguments.inc"], K + "mut.arguments.items", False),
         "st_mut": ({G: [st, mut]}, [K + "mut.arguments.scalar", K + "st.arguments.inc"], None, False),
         "mut_fl_st": ({G: [mut, fl, st]}, [K + "mut.arguments.scalar", K + "fl.arguments.arg"], None, True),
+        "mem_mut": ({G: [mem, mut]}, [K + "mem.arguments.inc", K + "mut.arguments.scalar"], None, False),
+        "st_mem_fl": ({G: [st, mem, fl]}, [K + "mem.arguments.inc", K + "st.arguments.inc", K + "fl.arguments.arg"],
+                      None, True),
         "two_groups": ({"photon_collection": [wr], G: [mut, st], "charge_measurement": [
             dict(func="verif_probes.stateful", name="st2", arguments=dict(key="_verif_memory2", inc=2.0))]},
             [K + "mut.arguments.scalar", K + "st.arguments.inc", "pipeline.charge_measurement.st2.arguments.inc"],
@@ -67,7 +71,19 @@ def gen_spec(r, pname=None):
                 readout=dict(times=r.choice([[1.0], [1.0, 2.0], [0.5, 1.0, 3.0]]),
                              non_destructive=r.random() < 0.3),
                 memory=r.choice([None, 3.0, 0.5, 3.0]))
+    # the caller's objects have a HISTORY: entries in the detector's own memory dict, trapped charge in a persistence
+    # object, earlier plain exposures on these very objects (buckets hold arrays, memory and list arguments moved on)
+    if r.random() < 0.6 or "mem" in pname:
+        spec["real_memory"] = r.choice([{"trap": 4.0}, {"trap": 0.5}, {"trap": 2.0, "other": 1.0}])
+    if r.random() < 0.4 or ("mem" in pname and r.random() < 0.6):
+        spec["persistence"] = r.choice([2.0, 0.25, 8.0])
+    spec["pre_exposure"] = r.choice([0, 0, 1, 1, 2])
     return pname, spec, keys, lkey, has_fail
+
+
+REJECTED = {"detector.characteristics.quantum_efficiency": ([0.5, 0.25, 0.75, 1.0], [1.5, -0.5]),
+            "detector.environment.temperature": ([100.0, 250.0, 300.0], [-5.0, 0.0, 2000.0]),
+            "detector.characteristics.pre_amplification": ([2.0, 4.0, 0.5], [-1.0, 20000.0])}
 
 
 def values_for(r, key, n, has_fail_key=False, with_fail=False):
@@ -92,15 +108,33 @@ def gen_observe(r, k):
         ks = r.sample(keys, min(nk, len(keys)))
         if with_fail and K + "fl.arguments.arg" not in ks:
             ks[0] = K + "fl.arguments.arg"
-        if r.random() < 0.25 and "detector.characteristics.quantum_efficiency" not in ks and len(ks) < 2:
-            ks.append("detector.characteristics.quantum_efficiency")
+        single = mode == "sequential" and dask
+        dkey = None
+        if r.random() < 0.4:
+            dkey = r.choice(sorted(REJECTED))
+            if single:
+                ks = [dkey]
+            elif len(ks) < 2:
+                ks.append(dkey)
+            else:
+                ks[-1] = dkey
+            if with_fail and K + "fl.arguments.arg" not in ks:
+                ks[0] = K + "fl.arguments.arg"
+        # a run whose parameter value is REJECTED by a setter (the copy site itself raises), at any position
+        reject = dkey is not None and dkey in ks and not with_fail and r.random() < 0.45
         params = []
         for key in ks:
             if key.startswith("detector."):
-                params.append(dict(key=key, values=r.sample([0.5, 0.25, 0.75, 1.0], 2)))
+                good, bad = REJECTED[key]
+                vals = r.sample(good, 2)
+                if reject:
+                    vals.insert(r.choice([0, 1, 2]), r.choice(bad))
+                params.append(dict(key=key, values=vals))
             else:
                 params.append(dict(key=key, values=values_for(r, key, r.choice([2, 3]), with_fail=with_fail)))
-        calls.append(dict(parameters=params, mode=mode, with_dask=dask))
+        if not with_fail and not reject and not single and r.random() < 0.06:
+            params.append(dict(key=K + "nomodel.arguments.x", values=[1.0, 2.0]))      # unknown key: refused up front
+        calls.append(dict(parameters=params, mode=mode, with_dask=dask, reject=reject))
     # run orders / subsets: repeat the first call with its values reversed or thinned
     if r.random() < 0.5 and calls:
         c0 = copy.deepcopy(calls[0])
@@ -133,6 +167,66 @@ def gen_observe_array(r, k):
     return dict(kind="observe", pipe="arr_st", spec=spec, calls=calls, input_class=cls)
 
 
+CONTAINERS = {
+    # kind -> (default value of `seq` as JSON, spec conversions, values swept for the key)
+    "list": ([1.0, 2.0], {}, [[1.0, 2.0]]),
+    "list2": ([4.0, 0.5, 2.0], {}, [[4.0, 0.5, 2.0], [1.0, 1.0, 8.0]]),
+    "nested": ([[1.0, 2.0], [3.0, 4.0]], {}, [[[1.0, 2.0], [3.0, 4.0]]]),
+    "tuple_of_lists": ([[1.0, 2.0], [3.0, 4.0]], {"tuple_args": [G + ".co.seq"]}, [[[1.0, 2.0], [3.0, 4.0]]]),
+    "ndarray": ([1.0, 2.0], {"ndarray_args": [G + ".co.seq"]}, [[1.0, 2.0]]),
+}
+CONTAINER_CLASS = {"list": "list", "list2": "list", "nested": "nested", "tuple_of_lists": "tuple_of_lists",
+                   "ndarray": "ndarray"}
+
+
+def gen_observe_container(r, k):
+    """A model that modifies its CONTAINER argument in place (plain list, nested lists, lists in a tuple, ndarray; a
+    dict argument that is never swept rides along).  The container-valued key is swept next to a scalar key, so that
+    in sequential mode the runs of the scalar key receive the caller's current container as the key's default."""
+    kind = sorted(CONTAINERS)[k % len(CONTAINERS)]
+    default, conv, swept = CONTAINERS[kind]
+    co = dict(func="verif_probes_c06.mutates_container", name="co",
+              arguments=dict(seq=copy.deepcopy(default), table={"a": 1.0, "b": [2.0, 0.5]}, scalar=0.0))
+    st = dict(func="verif_probes.stateful", name="st", arguments=dict(inc=1.0))
+    spec = dict(det=dict(kind="ccd", rows=1, cols=2), pipeline={G: [co, st]},
+                readout=dict(times=[1.0], non_destructive=False), memory=r.choice([None, 3.0]),
+                pre_exposure=r.choice([0, 0, 1]), **copy.deepcopy(conv))
+    scal = dict(key=K + "co.arguments.scalar", values=r.sample([1.0, 2.0, 4.0, 8.0], r.choice([2, 3])))
+    seqp = dict(key=K + "co.arguments.seq", values=copy.deepcopy(swept))
+    variant = (k // len(CONTAINERS)) % 4
+    cls = "plain"
+    if variant in (0, 1):    # the scalar key's runs receive the caller's container as default; either key order
+        ps = [scal, seqp] if variant == 0 else [seqp, scal]
+        calls = [dict(parameters=ps, mode="sequential", with_dask=False)]
+        if r.random() < 0.5:
+            calls.append(dict(parameters=[scal], mode="product", with_dask=r.random() < 0.5))
+        cls = "container_default_sequential_sweep"
+    elif variant == 2:
+        calls = [dict(parameters=[scal], mode="sequential", with_dask=r.random() < 0.5),
+                 dict(parameters=[scal, seqp], mode="product", with_dask=False)]
+    else:
+        calls = [dict(parameters=[seqp], mode="sequential", with_dask=False),
+                 dict(parameters=[scal], mode="product", with_dask=True)]
+    return dict(kind="observe", pipe="co_st", spec=spec, calls=calls, input_class=cls,
+                container=CONTAINER_CLASS[kind])
+
+
+def gen_sitefail(r, k):
+    """A copy site is asked to apply a value that a setter rejects, on caller objects that have a history."""
+    sites = ["create_new_processor", "replace", "build_processors", "update_processor"]
+    site = sites[k % len(sites)]
+    pname, spec, keys, lkey, has_fail = gen_spec(r)
+    spec["pre_exposure"] = r.choice([1, 1, 2, 0])
+    if site == "update_processor":
+        spec["readout"] = dict(times=[1.0], non_destructive=False)
+    dkey = r.choice(sorted(REJECTED))
+    good, bad = REJECTED[dkey]
+    items = [(key, r.choice(DYADIC)) for key in r.sample(keys, min(len(keys), r.choice([0, 1, 2])))]
+    items.insert(r.randrange(len(items) + 1), (dkey, r.choice(bad) if r.random() < 0.8 else r.choice(good)))
+    return dict(kind="sitefail", pipe=pname, spec=spec, site=site, params=dict(items),
+                with_obs=site in ("replace", "create_new_processor") and r.random() < 0.5)
+
+
 def gen_graph(r, k):
     sites = ["deepcopy", "replace", "create_new_processor", "update_processor", "build_processors", "fitting_init"]
     site = sites[k % len(sites)]
@@ -149,12 +243,14 @@ def gen_graph(r, k):
     # a list-valued parameter replaces a list of the same length (same graph shape): no run before it,
     # because mutates_args would have grown the caller's list
     pre_run = r.random() < 0.5 and not (lkey and lkey in params)
+    if lkey and lkey in params:
+        spec["pre_exposure"] = 0
     return dict(kind="graph", pipe=pname, spec=spec, site=site, params=params, with_obs=with_obs,
                 pre_run=pre_run)
 
 
 def gen_fitness(r, k):
-    pname, spec, keys, lkey, has_fail = gen_spec(r, ["a2p_st", "mut_st", "mut_fl_st", "two_groups"][k % 4])
+    pname, spec, keys, lkey, has_fail = gen_spec(r, ["a2p_st", "mut_st", "mut_fl_st", "two_groups", "mem_mut", "st_mem_fl"][k % 6])
     spec["readout"] = dict(times=[1.0], non_destructive=False)
     ks = r.sample(keys, min(r.choice([1, 2]), len(keys)))
     if has_fail and K + "fl.arguments.arg" not in ks:
@@ -180,7 +276,8 @@ def emit_graph_case(c, o, site_modes) -> str:
     mode = "Deep" if row is None else site_modes.get(row, "Deep")
     heap = core.clist(emit_obj(n) for n in o["orig"])
     obs = core.clist(emit_obj(n) for n in o["copy"])
-    return (f"mkGraphCase {heap} {mode} {obs} {len(o['shared_mem'])} {len(o['orig_changed'])}")
+    return (f"mkGraphCase {heap} {mode} {obs} {len(o['shared_mem'])} {len(o['orig_changed'])} "
+            f"{len(o.get('lost') or [])}")
 
 
 def zl(xs) -> str:
@@ -219,7 +316,7 @@ def emit_beh_case(before, afters, runs) -> str:
             f"{core.clist(f'({oz(a)}, {oz(b)})' for a, b in runs)}")
 
 
-HEAD = ("From Coq Require Import String ZArith List.\nFrom PyxelV Require Import Model.Heap.\n"
+HEAD = ("From Coq Require Import String ZArith List.\nFrom PyxelV Require Import Model.Heap Model.HeapExc.\n"
         "From PyxelGen Require Import Gen_C06.\nImport ListNotations.\nOpen Scope string_scope.\n")
 
 
@@ -227,6 +324,18 @@ def graph_file(items) -> str:
     body = ";\n  ".join(items)
     return (HEAD + f"Definition cases : list graph_case := [\n  {body}\n].\n"
             "Eval vm_compute in mismatches src_policy cases.\nEval vm_compute in violations cases.\n")
+
+
+def emit_fail_case(o) -> str:
+    return (f"mkFailCase {core.cbool(o['raised'] is not None)} {len(o['changed'])} "
+            f"{core.cbool(o['std_raised'] is not None)}")
+
+
+def fail_file(items) -> str:
+    body = ";\n  ".join(items)
+    return (HEAD + f"Definition cases : list fail_case := [\n  {body}\n].\n"
+            "Eval vm_compute in fail_violations cases.\n"
+            "Eval vm_compute in indices_where (fun c => fc_raised c) cases 0.\n")
 
 
 def beh_file(items) -> str:
@@ -247,14 +356,29 @@ def viol_graph(c, o) -> Violation:
         clause, what = "no_copy", "the site returned the caller's own processor"
     elif shared:
         clause, what = "shared_mutable", f"copy references original objects {shared[:6]} ({tags})"
+    elif o.get("lost"):
+        clause, what = "copy_incomplete", (f"the copy's detector does not hold what the caller's detector holds: "
+                                           f"{o['lost'][:4]}")
     else:
         clause, what = "shared_memory", f"arrays share memory: {o['shared_mem'][:4]}"
     case = dict(c)
     return Violation(clause=clause, case=case,
                      observed=dict(shared=shared[:20], shared_classes=tags, shared_mem=o["shared_mem"][:6],
-                                   orig_changed=o["orig_changed"][:6]),
-                     expected="no mutable object / array memory shared with the caller's graph; caller's values unchanged",
+                                   orig_changed=o["orig_changed"][:6], lost=(o.get("lost") or [])[:6]),
+                     expected="no mutable object / array memory shared with the caller's graph; caller's values "
+                              "unchanged; the copy's detector equals the caller's detector value for value",
                      what=f"site {c['site']} on pipeline {c['pipe']}: {what}",
+                     sig=dict(clause=clause, site=c["site"]))
+
+
+def viol_sitefail(c, o) -> Violation:
+    clause = "caller_changed_by_failing_site" if o["changed"] else "site_outcome_vs_standalone"
+    return Violation(clause=clause, case=dict(c),
+                     observed=dict(raised=o["raised"], std_raised=o["std_raised"], changed=o["changed"][:6]),
+                     expected="the site raises exactly when the value is rejected on an independently built "
+                              "configuration, and the caller's detector / pipeline / readout hold what they held before",
+                     what=f"site {c['site']} on pipeline {c['pipe']} with params {json.dumps(c['params'])}: "
+                          f"raised={o['raised']} standalone={o['std_raised']} caller paths changed: {o['changed'][:4]}",
                      sig=dict(clause=clause, site=c["site"]))
 
 
@@ -274,6 +398,8 @@ def viol_beh(c, o, clause) -> Violation:
         cfg = c["calls"][obs.get("call", 0)]
         sig = dict(clause=clause, path="dask" if cfg["with_dask"] else "sequential_loop",
                    input=c.get("input_class", "plain"))
+        if c.get("container"):
+            sig["container"] = c["container"]
     else:
         for i, e in enumerate(o["evals"]):
             bad = ((None if e["raised"] else e["obs"]) != (None if e["std_raised"] else e["std"]))
@@ -303,7 +429,7 @@ def site_modes_of(ctx: Ctx) -> dict:
 def correspondence(ctx: Ctx, cases, tag="c"):
     outs = core.run_driver(ctx, "c06", cases, workers=min(8, core.NCPU), timeout=900)
     modes = site_modes_of(ctx)
-    graphs, behs = [], []
+    graphs, behs, fails = [], [], []
     for c, o in zip(cases, outs):
         if any(k in o for k in ("crash", "driver_error", "error", "too_big")) or o.get("init_raised") \
                 or o.get("pre_run_error"):
@@ -315,9 +441,15 @@ def correspondence(ctx: Ctx, cases, tag="c"):
                     dict(err=o["site_error"], msg=o.get("site_error_msg")))[:400], c))
                 continue
             graphs.append((c, o))
+        elif c["kind"] == "sitefail":
+            fails.append((c, o))
         else:
             behs.append((c, o))
     files, index = {}, {}
+    if fails:
+        name = f"{tag}_sitefail"
+        files[name] = fail_file([emit_fail_case(o) for c, o in fails])
+        index[name] = ("fail", fails)
     per = 40
     for k in range(0, len(graphs), per):
         name = f"{tag}_graph_{k // per:03d}"
@@ -346,6 +478,10 @@ def correspondence(ctx: Ctx, cases, tag="c"):
             mism += [chunk[i] for i in a]
             for i in b:
                 ctx.violations.append(viol_graph(*chunk[i]))
+        elif kind == "fail":
+            for i in a:
+                ctx.violations.append(viol_sitefail(*chunk[i]))
+            ctx.count("failing_sites_that_raised", len(b))
         else:
             for i in a:
                 ctx.violations.append(viol_beh(*chunk[i], "caller_changed"))
@@ -362,26 +498,40 @@ def correspondence(ctx: Ctx, cases, tag="c"):
         ctx.count("graph_nodes", o["n0"])
         ctx.dist("graph_site", c["site"])
         ctx.dist("graph_size", "<30" if o["n0"] < 30 else "30..45" if o["n0"] <= 45 else ">45")
+    for c, o in fails:
+        ctx.count("evaluations")
+        ctx.dist("failing_site", f"{c['site']}/{'raised' if o['raised'] else 'accepted'}")
+    for c, o in graphs + fails + behs:
+        sp = c["spec"]
+        ctx.dist("caller_history", "+".join(
+            [t for t, on in (("real_memory", sp.get("real_memory")), ("persistence", sp.get("persistence") is not None),
+                             ("pre_exposure", sp.get("pre_exposure")), ("adhoc_memory", sp.get("memory") is not None))
+             if on]) or "fresh")
     for c, o in behs:
         if c["kind"] == "observe":
+            if c.get("container"):
+                ctx.dist("container_default", f"{c['container']}/{c.get('input_class')}")
             for cfg, call in zip(c["calls"], o["calls"]):
                 ctx.count("evaluations", len(call["runs"]))
                 ctx.count("observation_calls")
                 ctx.dist("call", f"{cfg['mode']}/{'dask' if cfg['with_dask'] else 'loop'}"
-                                 f"{'/raised' if call['raised'] else ''}")
+                                 f"{'/raised' if call['raised'] else ''}"
+                                 f"{'/rejected_value' if cfg.get('reject') else ''}")
         else:
             ctx.count("evaluations", len(o["evals"]))
             ctx.dist("call", "fitness")
             ctx.dist("fitness_raised", sum(1 for e in o["evals"] if e["raised"]))
         ctx.dist("pipeline", c["pipe"])
-    return graphs, behs, mism
+    return graphs, behs + fails, mism
 
 
 def gen_cases(ctx: Ctx, ng, no, nf, salt="cases"):
     r = ctx.rng(salt)
     cases = [gen_graph(r, k) for k in range(ng)]
+    cases += [gen_sitefail(r, k) for k in range(max(8, ng // 4))]
     cases += [gen_observe(r, k) for k in range(no)]
     cases += [gen_observe_array(r, k) for k in range(max(3, no // 8))]
+    cases += [gen_observe_container(r, k) for k in range(max(20, no // 2))]
     cases += [gen_fitness(r, k) for k in range(nf)]
     return cases
 
@@ -391,6 +541,8 @@ def nontrivial(c) -> bool:
     own argument AND (graph) the site sets >= 1 parameter or (behaviour) >= 2 runs are made."""
     if c["kind"] == "graph":
         return bool(c["params"]) or c["site"] in ("deepcopy", "fitting_init")
+    if c["kind"] == "sitefail":
+        return True
     if c["kind"] == "observe":
         return sum(len(q["values"]) for call in c["calls"] for q in call["parameters"]) >= 2
     return len(c["vectors"]) >= 2
@@ -433,6 +585,10 @@ def run(ctx: Ctx):
     for c, o in graphs[:2]:
         ctx.sample(dict(kind="graph", site=c["site"], pipe=c["pipe"], params=c["params"], n0=o["n0"],
                         copy_nodes=len(o["copy"]), shared_mem=o["shared_mem"], types=o.get("types", [])[:12]))
+    for c, o in [x for x in behs if x[0]["kind"] == "sitefail"][:1]:
+        ctx.sample(dict(kind="sitefail", site=c["site"], pipe=c["pipe"], params=c["params"], raised=o["raised"],
+                        standalone_raised=o["std_raised"], caller_paths_changed=o["changed"]))
+    behs = [x for x in behs if x[0]["kind"] != "sitefail"]
     for c, o in behs[:2] + behs[-1:]:
         if c["kind"] == "observe":
             ctx.sample(dict(kind="observe", pipe=c["pipe"], calls=c["calls"],
